@@ -7,6 +7,7 @@ import (
 
 	"golang.org/x/tools/go/ssa"
 
+	"verif/checker/esp"
 	"verif/checker/flow"
 	"verif/checker/load"
 )
@@ -19,6 +20,7 @@ func init() {
 			"R4: the exported validation entry points of gcetcbendorsement (functions taking a *…ValidateOptions) and their repo call closure write only to objects allocated during the call — nothing is cached in the options value the caller shares between validations. " +
 			"R3: no package-level variable of verify, gcetcbendorsement, extract/... is written outside package initialisation. " +
 			"Under the Go memory model, no shared write ⇒ no data race and no cross-call state, for every interleaving. " +
+			"R5 lock pairing (ESP): a function of the verifier packages that takes a sync mutex releases it on every path to a return (directly or deferred). " +
 			"Not covered: state inside external libraries (go-sev-guest, x509), unsafe/reflection writes.",
 		Assumptions: []string{"go/types, go/ssa, VTA call graph", "Go memory model", "external callees write only to objects passed to them (proto.Unmarshal writes the fresh message)", "interface-method results are not aliases of shared repo state"},
 		Run:         runC09,
@@ -207,6 +209,73 @@ func runC09(c *Ctx) {
 	}
 	if badg == 0 {
 		c.S.OK("R3", "verify, gcetcbendorsement, extract/*: globals", "", "no package-level variable written outside init", true)
+	}
+
+	// R5: lock pairing. Wherever the verifier packages take a sync.Mutex / RWMutex, every path to a return
+	// releases it (directly or by defer): a validation that fails early with the lock held would block every later
+	// and concurrent validation — whose outcome then depends on another call's fault, not on its own inputs.
+	nLock := 0
+	isLockCall := func(call ssa.CallInstruction) (bool, bool) {
+		cal := call.Common().StaticCallee()
+		if cal == nil || cal.Signature.Recv() == nil || cal.Pkg == nil || cal.Pkg.Pkg.Path() != "sync" {
+			return false, false
+		}
+		switch cal.Name() {
+		case "Lock", "RLock":
+			return true, false
+		case "Unlock", "RUnlock":
+			return false, true
+		}
+		return false, false
+	}
+	for _, f := range c.P.RepoFunctions() {
+		rel := load.RelPkg(f)
+		if c.isTestFunc(f) || isTestingPkg(rel) || !(rel == "verify" || strings.HasPrefix(rel, "gcetcbendorsement") || strings.HasPrefix(rel, "extract")) {
+			continue
+		}
+		if len(callsIn(f, func(call ssa.CallInstruction) bool { l, _ := isLockCall(call); return l })) == 0 {
+			continue
+		}
+		nLock++
+		const bHeld uint = 0
+		r := &esp.Rule{Name: "C09.R5"}
+		r.Relevant = func(*ssa.Function) bool { return false }
+		r.Match = func(in ssa.Instruction) []esp.Ev {
+			call, ok := in.(ssa.CallInstruction)
+			if !ok {
+				return nil
+			}
+			if l, u := isLockCall(call); l {
+				return []esp.Ev{{ID: 0, Name: "lock", ErrIdx: -1, BoolIdx: -1}}
+			} else if u {
+				return []esp.Ev{{ID: 1, Name: "unlock", ErrIdx: -1, BoolIdx: -1}}
+			}
+			return nil
+		}
+		r.Step = func(x *esp.Ctx, s esp.State, ev esp.Ev, ph esp.Phase) (esp.State, string) {
+			if ph != esp.AtCall {
+				return s, ""
+			}
+			if ev.ID == 0 {
+				return s.Set(bHeld), ""
+			}
+			return s.Clear(bHeld), ""
+		}
+		r.AtReturn = func(x *esp.Ctx, s esp.State, rets []esp.Abs) string {
+			if s.Has(bHeld) {
+				return "R5: the function can return with the mutex still held: every later or concurrent call that needs the lock blocks for ever"
+			}
+			return ""
+		}
+		e := c.engine(r)
+		e.Run(f, esp.State{})
+		if c.reportEngine(e, "R5", func(v *esp.Violation) string { return load.FuncName(f) + ":lock released" }) == 0 {
+			c.S.OK("R5", load.FuncName(f)+":lock released", c.pos(f.Pos()), "every return releases the lock", true)
+		}
+	}
+	c.S.Count("functions_taking_a_lock", nLock)
+	if nLock == 0 {
+		c.S.OK("R5", "verifier packages:lock pairing", "", "no mutex is taken in verify, gcetcbendorsement, extract/* (nothing to pair)", false)
 	}
 }
 
